@@ -22,8 +22,8 @@ Inductive uval :=
    checked against the implementation by a fixed harness case *)
 Definition esize_scalar (k : Z) : Z :=
   nth (Z.to_nat k)
-      [0; 1; 1; 1; 2; 2; 4; 4; 8; 8; 4; 8; 24; 12; 16; 24; 24; 40; 72; 4; 32; 48; 72; 0; 0; 56] 1.
-Definition DATAVALUE_SIZE : Z := 80.
+      [0; 1; 1; 1; 2; 2; 4; 4; 8; 8; 4; 8; 24; 12; 16; 24; 24; 40; 72; 4; 32; 48; 72; 0; 0; 72] 1.
+Definition DATAVALUE_SIZE : Z := 72.
 Definition esize (t : ty) : Z :=
   match t with
   | TS k => esize_scalar k
@@ -267,7 +267,8 @@ Definition enc_chunk_header (h : list Z) : bytes :=
   | _ => []
   end.
 (* MessageChunk::decode: the size check comes before the buffer is allocated and before the body
-   is read; a short body is zero-filled (the read_exact result is ignored); a declared size below
+   is read; a short body is zero-filled and the input cursor ends up at the end of the input (the
+   failed read_exact of a Cursor copies nothing and its result is ignored); a declared size below
    the header size leaves a 12-byte chunk (the cursor grows the buffer) *)
 Definition dec_chunk (o : opts) : M bytes :=
   h <- dec_chunk_header ;;
@@ -280,5 +281,5 @@ Definition dec_chunk (o : opts) : M bytes :=
     if data_len <? 12 then panic 2       (* data[chunk_header_size..] *)
     else fun bs =>
       let n := Z.to_nat (data_len - 12) in
-      if Nat.ltb (length bs) n then (Ok (hdr ++ repeat 0 n, bs), st0)
+      if Nat.ltb (length bs) n then (Ok (hdr ++ repeat 0 n, []), st0)
       else (Ok (hdr ++ firstn n bs, skipn n bs), st0).
